@@ -45,6 +45,8 @@ func (t typ) coq() string {
 		return "(list (list N))"
 	case "err":
 		return "bool"
+	case "list":
+		return "(list N)"
 	case "u":
 		return "N"
 	case "s":
@@ -98,7 +100,12 @@ var targets = []target{
 	{"rsec16/matrix.go", "", "calculateParallelParams", "gen_calculateParallelParams", 0, "", nil, false},
 	{"par2/crc32.go", "crc32Window", "update", "gen_crc32Window_update", 0, "", nil, false},
 	{"gf2p16/matrix.go", "Matrix", "rowReduceForInverse", "gen_rowReduceForInverse", 0, "(S (length m))", []string{"m", "n"}, true},
+	// the table of PAR2 constants: `generators` is a package-level slice the function appends to (in/out, starts empty)
+	{"rsec16/coder.go", "", "init", "gen_coder_init", 65540, "", []string{"generators"}, false},
 }
+
+// package-level slices of 16-bit field elements that a target may append to: they start empty and are returned
+var globalLists = map[string]bool{"generators": true}
 
 // byte-array variables initialised by a composite literal of character constants: file, variable, array length
 var byteArrays = []struct {
@@ -783,6 +790,9 @@ func (c *fn) block(stmts []ast.Stmt, rest func() string) string {
 		if x.Tok == token.BREAK && x.Label == nil {
 			return "Brk " + c.tuple()
 		}
+		if x.Tok == token.CONTINUE && x.Label == nil {
+			return "Cnt " + c.tuple()
+		}
 		fail(s, c.fset, "unsupported branch statement %s", x.Tok)
 	case *ast.BlockStmt:
 		return c.block(append(append([]ast.Stmt{}, x.List...), stmts[1:]...), rest)
@@ -841,11 +851,23 @@ func (c *fn) block(stmts []ast.Stmt, rest func() string) string {
 					fail(s, c.fset, "non-boolean loop condition")
 				}
 			}
-			list := append([]ast.Stmt{}, x.Body.List...)
-			if x.Post != nil {
-				list = append(list, x.Post)
+			var b string
+			if hasContinue(x.Body) {
+				// `continue` jumps to the post statement: the body proper is run under catch_cnt, then the post statement
+				inner := c.block(x.Body.List, func() string { return "Next " + c.tuple() })
+				post := "Next " + c.tuple()
+				if x.Post != nil {
+					post = c.block([]ast.Stmt{x.Post}, func() string { return "Next " + c.tuple() })
+				}
+				inner = c.block(x.Body.List, func() string { return "Next " + c.tuple() })
+				b = fmt.Sprintf("seq (catch_cnt (%s)) (fun %s =>\n%s)", inner, c.pat(), post)
+			} else {
+				list := append([]ast.Stmt{}, x.Body.List...)
+				if x.Post != nil {
+					list = append(list, x.Post)
+				}
+				b = c.block(list, func() string { return "Next " + c.tuple() })
 			}
-			b := c.block(list, func() string { return "Next " + c.tuple() })
 			return wrapBinds(ec, fmt.Sprintf("if %s then (%s) else Brk %s", cond, b, c.tuple()))
 		}
 		loopS := func() string {
@@ -916,6 +938,18 @@ func (c *fn) assign(x *ast.AssignStmt, next func() string) string {
 			rhs = &ast.BinaryExpr{X: id, Op: op, Y: &ast.ParenExpr{X: x.Rhs[i]}, OpPos: x.TokPos}
 		} else if x.Tok != token.ASSIGN && x.Tok != token.DEFINE {
 			fail(x, c.fset, "unsupported assignment operator %s", x.Tok)
+		}
+		if call, ok := rhs.(*ast.CallExpr); ok {
+			if fid, ok := call.Fun.(*ast.Ident); ok && fid.Name == "append" && len(call.Args) == 2 {
+				if a0, ok := call.Args[0].(*ast.Ident); ok && a0.Name == id.Name && c.vtypes[id.Name].kind == "list" {
+					ev, et := c.expr(call.Args[1], typ{"u", 16}, ec)
+					if et != (typ{"u", 16}) {
+						fail(x, c.fset, "append of a non-T element")
+					}
+					as = append(as, asg{id.Name, fmt.Sprintf("(%s ++ [%s])", id.Name, ev)})
+					continue
+				}
+			}
 		}
 		term, t := c.expr(rhs, want, ec)
 		if t.kind == "untyped" {
@@ -1168,6 +1202,12 @@ func translateOne(t target, decls map[string]*ast.FuncDecl, sigs map[string]*sig
 				}
 			}
 		}
+		for _, v := range t.inout {
+			if globalLists[v] {
+				c.declare(v, typ{"list", 0}, fd)
+				pre += fmt.Sprintf("let %s := (@nil N) in\n", v)
+			}
+		}
 		// parameters are assignable locals too
 		for i, p := range s.params {
 			_ = i
@@ -1175,7 +1215,7 @@ func translateOne(t target, decls map[string]*ast.FuncDecl, sigs map[string]*sig
 		}
 		end := func() string {
 			if len(s.results) == 0 {
-				return "Ret tt"
+				return c.retTerm(nil)
 			}
 			if len(c.rnames) > 0 {
 				return c.retTerm(c.rnames)
@@ -1194,7 +1234,7 @@ func translateOne(t target, decls map[string]*ast.FuncDecl, sigs map[string]*sig
 						isR = true
 					}
 				}
-				if !isR {
+				if !isR && c.vtypes[v].kind != "list" {
 					z := lit(0, c.vtypes[v])
 					if c.vtypes[v].kind == "bool" {
 						z = "false"
@@ -1299,4 +1339,20 @@ func resWithInout(res []typ, inout []string, vt map[string]typ) []typ {
 		out = append(out, vt[v])
 	}
 	return out
+}
+
+func hasContinue(b *ast.BlockStmt) bool {
+	found := false
+	ast.Inspect(b, func(n ast.Node) bool {
+		switch x := n.(type) {
+		case *ast.ForStmt, *ast.RangeStmt:
+			return false // a continue in a nested loop belongs to that loop
+		case *ast.BranchStmt:
+			if x.Tok == token.CONTINUE {
+				found = true
+			}
+		}
+		return true
+	})
+	return found
 }
